@@ -194,7 +194,7 @@ fn c01_uni_preamble_id8() {
 // @oracle reader half: on the reference preamble varint(0x41)||varint(sid) (what the writer half c01_bi_preamble_writer_* proves the opener emits) followed by the application bytes, the acceptor's first frame is the WT signal with the same session id, exactly the preamble is consumed, and the bytes that follow are the application bytes, untouched and in order
 // @assume From<io::Error> stubs; model source/sink never fail
 // @outside ordered reliable delivery, flow control, FIN, concurrency between streams (quinn); hand-off through the worker's channels (C08, not applicable)
-// @unwindset read_frame_async:3
+// @unwindset read_frame_async:1 GetBuffer:2
 #[kani::proof]
 #[kani::unwind(12)]
 #[kani::stub(<wtransport_proto::bytes::IoReadError as std::convert::From<std::io::Error>>::from, crate::common::io_read_err_stub)]
@@ -209,7 +209,7 @@ fn c01_bi_preamble_id1() {
 // @oracle reader half: on the reference preamble varint(0x41)||varint(sid) (what the writer half c01_bi_preamble_writer_* proves the opener emits) followed by the application bytes, the acceptor's first frame is the WT signal with the same session id, exactly the preamble is consumed, and the bytes that follow are the application bytes, untouched and in order
 // @assume From<io::Error> stubs; model source/sink never fail
 // @outside ordered reliable delivery, flow control, FIN, concurrency between streams (quinn); hand-off through the worker's channels (C08, not applicable)
-// @unwindset read_frame_async:3
+// @unwindset read_frame_async:1 GetBuffer:2
 #[kani::proof]
 #[kani::unwind(12)]
 #[kani::stub(<wtransport_proto::bytes::IoReadError as std::convert::From<std::io::Error>>::from, crate::common::io_read_err_stub)]
@@ -224,7 +224,7 @@ fn c01_bi_preamble_id2() {
 // @oracle reader half: on the reference preamble varint(0x41)||varint(sid) (what the writer half c01_bi_preamble_writer_* proves the opener emits) followed by the application bytes, the acceptor's first frame is the WT signal with the same session id, exactly the preamble is consumed, and the bytes that follow are the application bytes, untouched and in order
 // @assume From<io::Error> stubs; model source/sink never fail
 // @outside ordered reliable delivery, flow control, FIN, concurrency between streams (quinn); hand-off through the worker's channels (C08, not applicable)
-// @unwindset read_frame_async:3
+// @unwindset read_frame_async:1 GetBuffer:2
 #[kani::proof]
 #[kani::unwind(12)]
 #[kani::stub(<wtransport_proto::bytes::IoReadError as std::convert::From<std::io::Error>>::from, crate::common::io_read_err_stub)]
@@ -239,7 +239,7 @@ fn c01_bi_preamble_id4() {
 // @oracle reader half: on the reference preamble varint(0x41)||varint(sid) (what the writer half c01_bi_preamble_writer_* proves the opener emits) followed by the application bytes, the acceptor's first frame is the WT signal with the same session id, exactly the preamble is consumed, and the bytes that follow are the application bytes, untouched and in order
 // @assume From<io::Error> stubs; model source/sink never fail
 // @outside ordered reliable delivery, flow control, FIN, concurrency between streams (quinn); hand-off through the worker's channels (C08, not applicable)
-// @unwindset read_frame_async:3
+// @unwindset read_frame_async:1 GetBuffer:2
 #[kani::proof]
 #[kani::unwind(12)]
 #[kani::stub(<wtransport_proto::bytes::IoReadError as std::convert::From<std::io::Error>>::from, crate::common::io_read_err_stub)]
